@@ -3,6 +3,11 @@ import M3d.Lemmas.CodecPly
 import M3d.Lemmas.CodecMesh
 import M3d.Lemmas.CodecText
 import M3d.Lemmas.CodecCsv
+import M3d.Lemmas.CodecRound
+import M3d.Lemmas.CodecStlAscii
+import M3d.Lemmas.CodecStlNumbers
+import M3d.Lemmas.CodecOff
+import M3d.Lemmas.CodecPlyHeader
 import M3d.Model.CodecMesh
 /-!
 # C15 — mesh files round-trip through the library's writers and readers
@@ -83,6 +88,42 @@ theorem ply_row_roundtrip {ft : FloatText} (f : Format) (hft : f = .text → Tex
     ∃ a, readRow ft f el (encodeRow ft f row ++ rest) = .ok (row, rest, a) :=
   readRow_row f hft el row h rest
 
+/-- **PLY list properties of ANY length** (binary, both byte orders): a list property whose count
+value is `len` (of the declared count type, any of char…uint) followed by `vs.length = len` entries is
+read back in full — all `vs.length` entries, there is no bound on the length other than what the
+count type can express — and the properties that follow it in the row (`ps`/`row`) and the rest of the
+stream are decoded unshifted.  (Instance of `ply_row_roundtrip`, which has no length bound either;
+stated separately because the reader pre-allocates only `min(len, 4096)` entries: the number of
+entries *read* must still be `len`.  ASCII: `ply_row_roundtrip` with `f = .text`.) -/
+theorem ply_list_any_length_roundtrip (e : Endian) (p : PProp) (lt : PType) (hp : p.lenType = some lt)
+    (len : Scalar) (vs : List Scalar) (hk : len.kind = lt.kind) (hw : len.WF)
+    (hlen : lengthValue len = some (vs.length : Int))
+    (hvs : ∀ v ∈ vs, v.kind = p.elemType.kind ∧ v.WF)
+    (ps : List PProp) (row : List PVal) (hrow : RowOK ps row) (rest : Bytes) :
+    ∃ a, decodeBinary e (p :: ps)
+        (scalarBytes e len ++ vs.flatMap (scalarBytes e) ++ rowBinary e row ++ rest) =
+      .ok (.list len vs :: row, rest, a) := by
+  have h : RowOK (p :: ps) (.list len vs :: row) := .cons ⟨lt, hp, hk, hw, hlen, hvs⟩ hrow
+  obtain ⟨a, ha⟩ := decodeBinary_row e (p :: ps) (.list len vs :: row) h rest
+  refine ⟨a, ?_⟩
+  rw [← ha]
+  simp [rowBinary]
+
+/-- Non-vacuity: a `list uint uchar` row of 100 000 entries (far above the reader's pre-allocation
+bound 4096 and above 65 535) followed by a `short` satisfies the hypotheses. -/
+example (e : Endian) (rest : Bytes) :
+    ∃ a, decodeBinary e [⟨some ⟨.u32, false⟩, ⟨.u8, false⟩, [112]⟩, ⟨none, ⟨.i16, false⟩, [107]⟩]
+        (scalarBytes e ⟨.u32, 100000⟩ ++ (List.replicate 100000 (⟨.u8, 7⟩ : Scalar)).flatMap (scalarBytes e) ++
+          rowBinary e [.one ⟨.i16, 5⟩] ++ rest) =
+      .ok ([.list ⟨.u32, 100000⟩ (List.replicate 100000 ⟨.u8, 7⟩), .one ⟨.i16, 5⟩], rest, a) := by
+  apply ply_list_any_length_roundtrip e _ ⟨.u32, false⟩ rfl _ _ rfl
+  · unfold Scalar.WF; norm_num [Kind.size]
+  · rw [List.length_replicate]; rfl
+  · intro v hv
+    rw [List.eq_of_mem_replicate hv]
+    exact ⟨rfl, by unfold Scalar.WF; norm_num [Kind.size]⟩
+  · exact .cons ⟨rfl, rfl, by unfold Scalar.WF; norm_num [Kind.size]⟩ .nil
+
 /-- **Decimal integer text** (`strconv.FormatInt` ↔ `ParseInt(s, 10, bits)`, also `Itoa`/`Atoi`): every
 value representable at `bits` bits is read back. -/
 theorem int_text_roundtrip (bits : Nat) (i : Int) (hlo : -(2 ^ (bits - 1) : Nat) ≤ i) (hhi : i < (2 ^ (bits - 1) : Nat)) :
@@ -125,8 +166,7 @@ theorem ply_rows_roundtrip {ft : FloatText} (f : Format) (hft : f = .text → Te
 
 /-- **PLY stream round trip (whole file)**: `NewPLYWriter` + `Write`… then `NewPLYReader` + `Read`… gives
 back the header and the value sequence, for every header whose text decodes to itself
-(`hhdr`; the header grammar round trip is checked by the correspondence on every generated header —
-see notes: `ply_header_roundtrip` is not proved in general). -/
+(`hhdr`; discharged by `ply_header_roundtrip` for every well-named header: see `ply_file_roundtrip`). -/
 theorem ply_stream_roundtrip {ft : FloatText} (h : Header) (hft : h.format = .text → TextOK ft)
     (rss : List (List (List PVal))) (hseq : SeqOK h.elements rss)
     (hhdr : ∀ body, plyOpen (h.encode ++ body) = .ok (h, body)) :
@@ -140,6 +180,48 @@ theorem ply_stream_roundtrip {ft : FloatText} (h : Header) (hft : h.format = .te
     have := readElems_seq h.format hft h.elements rss hseq 0 []
     rw [List.append_nil] at this
     exact ⟨_, rfl, this.1, this.2⟩
+
+/-- **PLY header round trip** (`ply_header_roundtrip`, was a hypothesis): `NewPLYReader` applied to
+`PLYHeader.Encode()` followed by any body — the byte-by-byte search for the first `end_header\n`
+(`NewPLYHeaderRead`), then the line grammar (`NewPLYHeaderDecode`: `ply`, `format … 1.0`, `element name
+count`, `property type name`, `property list lentype type name`) — returns exactly the header written
+and leaves the body untouched: for every format, every element list (any counts in int64, negative and
+zero included), every property list (scalars and lists, all 16 type-name spellings).  `HeaderOK`: element
+and property names are tokens (non-empty, no white space) and **no property name ends in the word
+`end_header`** (such a name makes the line end in `end_header\n`, which the format's own header
+terminator search cannot distinguish — not expressible in the format). -/
+theorem ply_header_roundtrip (h : Header) (hh : HeaderOK h) (body : Bytes) :
+    plyOpen (h.encode ++ body) = .ok (h, body) :=
+  plyOpen_encode h hh body
+
+/-- **PLY stream round trip, whole file, no hypothesis on the header text**: for every well-named
+header and every conforming value sequence, `NewPLYWriter` + `Write`… never fails and ends flushed, and
+`NewPLYReader` + `Read`… until `io.EOF` gives back the header and exactly the rows written, tagged by
+element, in order (ASCII under `TextOK`, binary unconditionally). -/
+theorem ply_file_roundtrip {ft : FloatText} (h : Header) (hh : HeaderOK h)
+    (hft : h.format = .text → TextOK ft)
+    (rss : List (List (List PVal))) (hseq : SeqOK h.elements rss) :
+    ∃ bytes, plyWrite ft h rss.flatten = some (bytes, true) ∧
+      ∃ r, plyReadAll ft bytes = .ok (h, r) ∧ r.rows = indexed 0 rss ∧ r.err = none :=
+  ply_stream_roundtrip h hft rss hseq (fun body => plyOpen_encode h hh body)
+
+/-- Non-vacuity of `HeaderOK`: `element vertex 2 / property float x / property list uchar int idx`,
+`element face 0`. -/
+example : HeaderOK ⟨.bin .big,
+    [⟨ascii "vertex", 2, [⟨none, ⟨.f32, false⟩, ascii "x"⟩, ⟨some ⟨.u8, false⟩, ⟨.i32, false⟩, ascii "idx"⟩]⟩,
+     ⟨ascii "face", 0, []⟩]⟩ := by
+  have tokx : IsToken (ascii "x") ∧ IsToken (ascii "idx") ∧ IsToken (ascii "vertex") ∧ IsToken (ascii "face") := by
+    unfold IsToken; decide
+  intro el hel
+  simp only [List.mem_cons, List.not_mem_nil, or_false] at hel
+  rcases hel with rfl | rfl
+  · refine ⟨tokx.2.2.1, by decide, by decide, ?_⟩
+    intro p hp
+    simp only [List.mem_cons, List.not_mem_nil, or_false] at hp
+    rcases hp with rfl | rfl
+    · exact ⟨tokx.1, NoEH_of_forall _ (by decide)⟩
+    · exact ⟨tokx.2.1, NoEH_of_forall _ (by decide)⟩
+  · exact ⟨tokx.2.2.2, by decide, by decide, by simp⟩
 
 /-- Non-vacuity of the stream theorems, and the failing input of the unrepaired reader: the header
 `[a : 0 rows (one uchar), b : 1 row (one uchar)]` with the single row `[7]`, little endian.  The
@@ -162,6 +244,159 @@ example :
     let a : Element := ⟨[97], 1, []⟩
     let z : Element := ⟨[122], 0, []⟩
     isDone [a, z] 1 = true ∧ isDoneUnrepaired [a, z] 1 = false := by decide
+
+/-! ## ASCII STL text written to the specification -/
+
+/-- **ASCII STL to the specification is read back** (`stl_ascii_spec`, general form).  `stlAsciiSpec fmt32 ts`
+is the text `solid m3d` / per facet `facet normal nx ny nz`, `outer loop`, 3 × `vertex x y z`, `endloop`,
+`endfacet` / `endsolid m3d` with the number texts `fmt32 w`.  If every number text is a 7-bit token that
+the number parser reads as `g w` (`WordOK`), then `fileformats.NewSTLReader` — the ASCII sniffing on the
+first 512 bytes, the header line — and the `ReadTriangle` loop until `endsolid` return exactly the
+facets written: same number, same order, normal then the three vertices in the order written
+(orientation), every number replaced by the parser's reading `g w` of its text. -/
+theorem stl_ascii_spec (fmt32 : Nat → Bytes) (pf32 : Bytes → Option UInt32) (g : UInt32 → UInt32)
+    (ts : List Rec) (h12 : ∀ t ∈ ts, t.length = 12) (hw : ∀ t ∈ ts, ∀ w ∈ t, WordOK fmt32 pf32 g w) :
+    stlDecode pf32 (stlAsciiSpec fmt32 ts) = .ok (ts.map (·.map g)) :=
+  stlDecode_asciiSpec fmt32 pf32 g ts h12 hw
+
+/-- **ASCII STL round trip** (kind `stla`): when the text of every float32 parses back to it
+(Go's law `ParseFloat(FormatFloat(x,'f',-1,32),32) = x`, checked by the harness on every number), the
+reader returns exactly the records written. -/
+theorem stl_ascii_roundtrip (fmt32 : Nat → Bytes) (pf32 : Bytes → Option UInt32)
+    (ts : List Rec) (h12 : ∀ t ∈ ts, t.length = 12) (hw : ∀ t ∈ ts, ∀ w ∈ t, WordOK fmt32 pf32 id w) :
+    stlDecode pf32 (stlAsciiSpec fmt32 ts) = .ok ts := by
+  have := stlDecode_asciiSpec fmt32 pf32 id ts h12 hw
+  simpa using this
+
+/-- **ASCII STL with decimal literals of any length** (kind `stlr`, no hypothesis on the texts): if the
+model's parser accepts the text of every number (`parseF32 (text w) = some (g w)` — by
+`stl_number_correctly_rounded` then `g w` is the written number rounded once to binary32, by
+`stl_number_range` acceptance means `|number| < MaxFloat32 + ½ulp`), the reader returns exactly the
+facets with those values.  Decimal literals are 7-bit tokens (`parseDec_bytes`), so nothing else is
+assumed. -/
+theorem stl_ascii_literals_read_rounded_once (text : Nat → Bytes) (g : UInt32 → UInt32)
+    (ts : List Rec) (h12 : ∀ t ∈ ts, t.length = 12)
+    (hp : ∀ t ∈ ts, ∀ w ∈ t, parseF32 (text w.toNat) = some (g w)) :
+    stlDecode parseF32 (stlAsciiSpec text ts) = .ok (ts.map (·.map g)) :=
+  stlDecode_asciiSpec text parseF32 g ts h12 (fun t ht w hw => wordOK_parseF32 text g w (hp t ht w hw))
+
+/-- Non-vacuity of `stl_ascii_spec` with the model's own number parser (kind `stlr`): one facet whose
+twelve numbers are the literal `1.00000005960464478` (above the midpoint of 1 and its successor) is read
+as twelve times `0x3f800001`. -/
+example :
+    let tok := ascii "1.00000005960464478"
+    stlDecode parseF32 (stlAsciiSpec (fun _ => tok) [List.replicate 12 0]) =
+      .ok [List.replicate 12 0x3f800001] := by
+  intro tok
+  have h := stl_ascii_spec (fun _ => tok) parseF32 (fun _ => 0x3f800001) [List.replicate 12 0]
+    (by simp) (by
+      intro t _ w _
+      exact ⟨by unfold IsToken; decide, by decide +kernel, by decide⟩)
+  simpa using h
+
+/-! ## ASCII STL numbers: rounded ONCE to the format's precision (binary32) -/
+
+/-- **Correct rounding to binary32** (`strconv.ParseFloat(tok, 32)` as the ASCII STL reader must
+behave).  `roundF32 n d` is the bit pattern the model returns for the non-negative number `n/d`
+(`f32val b` = the value of pattern `b`, in the format extended to unbounded exponents, so every finite
+binary32 is a `b' < 0x7f800000`): **no pattern is strictly closer** to `n/d` than the result, and if a
+pattern of a *different value* is equally close (the number is exactly a midpoint), the result is the
+**even** one.  There is no second rounding: the comparison is with the exact rational.  The result is a
+float32 exactly when `roundF32 n d < 0x7f800000` (`parseF32` returns an error otherwise). -/
+theorem f32_round_nearest_even (n d : Nat) (hd : 0 < d) (b' : Nat) :
+    |f32val (roundF32 n d) - (n : ℚ) / d| ≤ |f32val b' - (n : ℚ) / d| ∧
+    (|f32val b' - (n : ℚ) / d| = |f32val (roundF32 n d) - (n : ℚ) / d| →
+      f32val b' ≠ f32val (roundF32 n d) → roundF32 n d % 2 = 0) :=
+  roundF32_nearest n d hd b'
+
+/-- `f32val` is the IEEE-754 binary32 value: 1.0, the largest finite number, the smallest subnormal,
+the smallest normal. -/
+example : f32val 0x3f800000 = 1 ∧ f32val 0x7f7fffff = (2 ^ 24 - 1) * 2 ^ 104 ∧
+    f32val 1 = 1 / 2 ^ 149 ∧ f32val 0x00800000 = 1 / 2 ^ 126 := by
+  refine ⟨?_, ?_, ?_, ?_⟩ <;> norm_num [f32val, f32nat]
+
+/-- The failing inputs of a reader that rounds twice (through float64): `1.00000005960464478` lies
+above the midpoint of 1 and its successor, `16777217.0000000001` above the midpoint of 2^24 and
+2^24+2 — both must round *up* (a float64 detour lands on the midpoint and then ties to even, down). -/
+example : roundF32 100000005960464478 100000000000000000 = 0x3f800001 ∧
+    roundF32 167772170000000001 10000000000 = 0x4b800001 ∧
+    roundF32 1 (10 ^ 46) = 0 ∧ roundF32 (10 ^ 39) 1 ≥ f32Inf := by
+  refine ⟨?_, ?_, ?_, ?_⟩ <;> decide +kernel
+
+/-- **The model's number parser = the number written, rounded once, sign kept**: when the token is the
+decimal literal `x` (`Dec.value x = ± mant·10^exp10`, any number of digits) and `parseF32` returns `w`,
+then `w` is a finite binary32 pattern, **no 32-bit pattern has a value closer to the written number**,
+and a tie between two different values is resolved to the even significand.  This is the answer the
+correspondence kind `stlr` demands from the real reader for every number of a spec-conformant ASCII
+STL file ("coordinates equal to the originals rounded to the format's precision"). -/
+theorem stl_number_correctly_rounded (tok : Bytes) (x : Dec) (w : UInt32)
+    (hx : parseDec tok = some x) (hw : parseF32 tok = some w) :
+    w.toNat % 2 ^ 31 < f32Inf ∧
+    ∀ w' : Nat, |f32valS w.toNat - x.value| ≤ |f32valS w' - x.value| ∧
+      (|f32valS w' - x.value| = |f32valS w.toNat - x.value| → f32valS w' ≠ f32valS w.toNat →
+        w.toNat % 2 = 0) :=
+  parseF32_correct tok x w hx hw
+
+/-- **Range of the format**: the rounded pattern is a finite binary32 exactly when the number written
+is below MaxFloat32 + ½ulp = (2^25 − 1)·2^103 ≈ 3.4028235678e38 (at the threshold itself ties-to-even
+would give 2^128); correspondingly the model's parser returns an error for a decimal literal iff its
+magnitude is at least that threshold — such a number is not expressible in a single-precision format,
+the kind `stlr` accepts an error or a saturated (infinite) reading for it. -/
+theorem stl_number_range (tok : Bytes) (x : Dec) (hx : parseDec tok = some x) :
+    parseF32 tok = none ↔ (2 ^ 25 - 1) * 2 ^ 103 ≤ |x.value| :=
+  parseF32_none_iff tok x hx
+
+/-- … and on fractions: `roundF32 n d < 0x7f800000 ↔ n/d < (2^25 − 1)·2^103`. -/
+theorem f32_round_finite_iff (n d : Nat) (hd : 0 < d) :
+    roundF32 n d < f32Inf ↔ (n : ℚ) / d < (2 ^ 25 - 1) * 2 ^ 103 :=
+  roundF32_finite_iff n d hd
+
+/-- Non-vacuity: the literal `-2.000000119209289550781250000001` (just beyond the midpoint of 2 and its
+successor, on the far side from the even neighbour) parses and reads as `0xc0000001`. -/
+example : parseF32 (ascii "-2.000000119209289550781250000001") = some 0xc0000001 := by decide +kernel
+
+/-! ## OFF text written to the specification -/
+
+/-- **OFF to the specification is read back** (`off_spec`, kind `off`): the text `OFF` / `nv nf 0` / one
+line `x y z` per vertex / one line `k i1 … ik` per face (`offSpec`), read with `fileformats.NewOFFReader`
+and `ReadFace` × `NumFaces`, gives the faces in the order written, each with its corners in the order
+written (orientation), every corner being the vertex the index names, with coordinates equal to the
+originals — for every vertex list and every face list (any polygon sizes, the empty file included;
+counts below 2^63), under Go's float text law `ParseFloat(FormatFloat(x,'f',-1,64),64) = x` and the
+text being a token (`V3OK`, checked by the harness on every number). -/
+theorem off_spec (fmt64 : Nat → Bytes) (pf64 : Bytes → Option UInt64) (verts : List V3)
+    (faces : List (List Nat)) (hv : ∀ v ∈ verts, V3OK fmt64 pf64 v)
+    (hnv : verts.length < 2 ^ 63) (hnf : faces.length < 2 ^ 63)
+    (hf : ∀ f ∈ faces, f.length < 2 ^ 63 ∧ ∀ i ∈ f, i < verts.length) :
+    offDecode pf64 (offSpec fmt64 verts faces) =
+      some (faces.map fun f => f.map fun i => verts.getD i (0, 0, 0)) :=
+  offDecode_spec fmt64 pf64 verts faces hv hnv hnf hf
+
+/-- … and through `model3d.ReadOFF` (which rejects polygons with fewer than three corners): the same
+faces, when every face has at least three corners. -/
+theorem off_mesh_spec (fmt64 : Nat → Bytes) (pf64 : Bytes → Option UInt64) (verts : List V3)
+    (faces : List (List Nat)) (hv : ∀ v ∈ verts, V3OK fmt64 pf64 v)
+    (hnv : verts.length < 2 ^ 63) (hnf : faces.length < 2 ^ 63)
+    (hf : ∀ f ∈ faces, f.length < 2 ^ 63 ∧ ∀ i ∈ f, i < verts.length)
+    (h3 : ∀ f ∈ faces, 3 ≤ f.length) :
+    offDecodeMesh pf64 (offSpec fmt64 verts faces) =
+      some (faces.map fun f => f.map fun i => verts.getD i (0, 0, 0)) := by
+  unfold offDecodeMesh
+  rw [offDecode_spec fmt64 pf64 verts faces hv hnv hnf hf]
+  have : (faces.map fun f => f.map fun i => verts.getD i (0, 0, 0)).all
+      (fun p => decide (3 ≤ p.length)) = true := by
+    rw [List.all_eq_true]
+    intro p hp
+    obtain ⟨f, hfm, rfl⟩ := List.mem_map.mp hp
+    simpa using h3 f hfm
+  simp only [this, if_true]
+
+/-- Non-vacuity: a two-vertex, one-face file with an oracle that satisfies the law. -/
+example :
+    let fmt : Nat → Bytes := fun n => fmtNat n
+    let pf : Bytes → Option UInt64 := fun s => (parseUintN 64 s).map UInt64.ofNat
+    offDecode pf (offSpec fmt [(1, 2, 3), (4, 5, 6)] [[0, 1, 1]]) =
+      some [[(1, 2, 3), (4, 5, 6), (4, 5, 6)]] := by decide +kernel
 
 /-! ## segment CSV -/
 
